@@ -30,6 +30,11 @@ func fileItemScanner(data []byte, _ bool) (advance int, token []byte, err error)
 	}
 
 	advance = fileItemMinLen + int(data[2])
+	if len(data) < advance {
+		// The item is not complete yet (it straddles the end of the scanner's buffer): ask for more data.
+		return 0, nil, nil
+	}
+
 	return advance, data[0:advance], nil
 }
 
